@@ -309,6 +309,8 @@ type Unit struct {
 	top      *Frame
 	assumed  map[string]bool
 	deps     map[string]bool
+	fixLen    map[int]int64
+	unrollAll int // >0: bounded mode — every loop is unrolled this many times and longer runs are cut off
 }
 
 type Edge struct {
@@ -449,8 +451,17 @@ func (v *Verifier) newUnit(fn *ssa.Function) *Unit {
 }
 
 // verifyFunction generates all obligations of one function under its contract.
-func (v *Verifier) verifyFunction(fn *ssa.Function) (u *Unit) {
+func (v *Verifier) verifyFunction(fn *ssa.Function) (u *Unit) { return v.verifyFunctionOpts(fn, 0) }
+
+func (v *Verifier) verifyFunctionOpts(fn *ssa.Function, unrollAll int) (u *Unit) {
+	return v.verifyFunctionFixed(fn, unrollAll, nil)
+}
+
+// verifyFunctionFixed: bounded mode with the lengths of sequence parameters fixed to literals.
+func (v *Verifier) verifyFunctionFixed(fn *ssa.Function, unrollAll int, fixLen map[int]int64) (u *Unit) {
 	u = v.newUnit(fn)
+	u.unrollAll = unrollAll
+	u.fixLen = fixLen
 	defer func() {
 		if r := recover(); r != nil {
 			if ee, ok := r.(evalErr); ok {
@@ -471,8 +482,15 @@ func (v *Verifier) verifyFunction(fn *ssa.Function) (u *Unit) {
 	u.facts = append(u.facts, v.axioms...)
 	nAx := len(v.axioms)
 	fr := &Frame{u: u, fn: fn, fi: v.info(fn), contract: u.contract, guard: True, top: true, depth: 0}
-	for _, p := range fn.Params {
+	for pi, p := range fn.Params {
 		pv := namedVal(p.Type(), "p!"+p.Name())
+		if n, ok := u.fixLen[pi]; ok && (pv.K == VString || pv.K == VSlice) {
+			pv.Len = IntLit(n)
+			pv.Off = IntLit(0)
+			if pv.K == VSlice {
+				pv.Cap = IntLit(n)
+			}
+		}
 		fr.params = append(fr.params, pv)
 		u.facts = append(u.facts, validFacts(pv, u.next0, nil)...)
 		registerBelow(pv, u.next0)
@@ -703,11 +721,21 @@ func (fr *Frame) execLoop(l *Loop) {
 			n = k
 		}
 	}
+	if fr.u.unrollAll > 0 {
+		n = fr.u.unrollAll
+	}
 	if n > 0 {
 		inc := entry
 		for it := 0; ; it++ {
 			inc = liveEdges(inc)
 			if len(inc) == 0 {
+				break
+			}
+			if it == n && fr.u.unrollAll > 0 {
+				// bounded search: executions needing more iterations are not explored
+				for _, e := range inc {
+					fr.u.facts = append(fr.u.facts, Not(e.cond))
+				}
 				break
 			}
 			if it == n {
